@@ -257,6 +257,21 @@ func init() {
 		t, u := c.Args[0].(*StructV), c.Args[1].(*StructV)
 		return c.ret(term.And(term.Eq(t.F[0].(*term.Term), u.F[0].(*term.Term)), term.Eq(t.F[1].(*term.Term), u.F[1].(*term.Term))))
 	}
+	tcmp := func(strictAfter bool) StubFn {
+		return func(ex *Exec, c *CallCtx) []*callResult {
+			t, u := c.Args[0].(*StructV), c.Args[1].(*StructV)
+			td, ud := t.F[1].(*term.Term), u.F[1].(*term.Term)
+			tn, un := t.F[0].(*term.Term), u.F[0].(*term.Term)
+			less := term.Or(term.Slt(td, ud), term.And(term.Eq(td, ud), term.Ult(tn, un)))
+			more := term.Or(term.Slt(ud, td), term.And(term.Eq(td, ud), term.Ult(un, tn)))
+			if strictAfter {
+				return c.ret(more)
+			}
+			return c.ret(less)
+		}
+	}
+	Stubs["(time.Time).After"] = tcmp(true)
+	Stubs["(time.Time).Before"] = tcmp(false)
 	Stubs["(time.Time).AddDate"] = func(ex *Exec, c *CallCtx) []*callResult {
 		t := c.Args[0].(*StructV)
 		ld, _ := ex.localDays(c.St, t)
